@@ -78,7 +78,7 @@ func unpackTokens(h *uHeader) ([]string, [][2]string) {
 			set[t] = true
 		}
 	}
-	for _, t := range []string{"a", "b", "c", "f", "s", "t", "u", "l", "x", "nowhere"} {
+	for _, t := range []string{"a", "b", "c", "f", "p", "s", "t", "u", "l", "x", "nowhere"} {
 		set[t] = true
 	}
 	var toks []string
@@ -291,6 +291,13 @@ func unpackMain() int {
 		}
 		n := atomic.AddInt64(&seq, 1)
 		g := gs[int(n)%len(gs)]
+		for _, e := range c.Hist {
+			// a global-header entry cannot carry a long or non-ASCII name (no extension header applies to it):
+			// such a history is replayed with the first (identity) name table
+			if e.K == "g" && len(e.Name) > 1 {
+				g = gs[0]
+			}
+		}
 		obs, infra := unpackOnce(base, hdr, g, &c, w, n)
 		if infra != "" {
 			acc.Infra(infra)
